@@ -3,7 +3,7 @@
 
 class LoopSpec:
     def __init__(self, invariants, decreases=None, index=None, modifies=(), hints=(), hints_end=(), retype=None,
-                 havoc_yielded=False, havoc_ghost=()):
+                 havoc_yielded=False, havoc_ghost=(), step=None):
         self.invariants = dict(invariants) if isinstance(invariants, dict) else {f"i{k}": v for k, v in enumerate(invariants)}
         self.decreases = decreases
         self.index = index
@@ -13,6 +13,7 @@ class LoopSpec:
         self.retype = dict(retype or {})
         self.havoc_yielded = havoc_yielded
         self.havoc_ghost = list(havoc_ghost)
+        self.step = dict(step or {})      # clauses relating the locals before (pre_<name>) and after one full iteration
 
 
 class Contract:
